@@ -35,6 +35,11 @@ func init() {
 		UseRace:   true,
 	}
 	sub := NewSub(p, "workload", func(c *Ctx, cs *c18Case) *Fail {
+		// a fresh worker process every few workloads: first-use initialisation
+		// inside the library then happens under concurrency
+		if c.SB.Requests%4 == 0 {
+			c.SB.Close()
+		}
 		r := c.SB.Do(&sb.Req{Op: "conc", Env: cs.Env, Loader: "memory", Templates: cs.Templates, Calls: cs.Calls, Procs: cs.Procs, Yield: cs.Yield, DeadlineMs: 20000})
 		distinct := map[string]bool{}
 		for _, call := range cs.Calls {
